@@ -34,8 +34,6 @@ const (
 	c41slow // accepts after scn.slowBy of virtual time unless the context ends first
 )
 
-var c41epName = [...]string{"accept", "refuse", "hang", "slow"}
-
 const (
 	c41resOK = iota
 	c41resErr
@@ -502,13 +500,13 @@ func TestVerif_C41(t *testing.T) {
 	scns := []*c41scn{
 		{name: "conc2/cache-1s-redial-after-2s", bound: B, conc: 2, hosts: two, eps: map[string]c41ep{"10.0.0.1": c41refuse, "10.0.0.2": c41accept}, cacheFor: sec,
 			threads: [][]c41d{{dto("h", sec), at(2*sec, dto("h", sec))}, {at(2*sec, dds("h", sec))}}},
-		{name: "conc1/resolver-slow-1s", bound: b, conc: 1, hosts: map[string]c41host{"h": {ips: []string{"10.0.0.1", "10.0.0.2"}, mode: c41resSlow}}, eps: map[string]c41ep{"10.0.0.1": c41accept, "10.0.0.2": c41hang},
+		{name: "conc1/resolver-slow-1s", bound: B, conc: 1, hosts: map[string]c41host{"h": {ips: []string{"10.0.0.1", "10.0.0.2"}, mode: c41resSlow}}, eps: map[string]c41ep{"10.0.0.1": c41accept, "10.0.0.2": c41hang},
 			threads: [][]c41d{{dto("h", 2*sec)}, {dto("h", 500*time.Millisecond)}, {at(1500*time.Millisecond, dto("h", sec))}}},
-		{name: "conc1/resolver-error-and-ok-host", bound: b, conc: 1, hosts: map[string]c41host{"bad": {mode: c41resErr}, "h": two["h"]}, eps: map[string]c41ep{"10.0.0.2": c41accept},
+		{name: "conc1/resolver-error-and-ok-host", bound: B, conc: 1, hosts: map[string]c41host{"bad": {mode: c41resErr}, "h": two["h"]}, eps: map[string]c41ep{"10.0.0.2": c41accept},
 			threads: [][]c41d{{dto("bad", sec)}, {dto("h", sec)}, {dto("h", sec)}}},
-		{name: "conc1/1addr-accept", bound: b, conc: 1, hosts: one, eps: map[string]c41ep{"10.0.0.1": c41accept},
+		{name: "conc1/1addr-accept", bound: B, conc: 1, hosts: one, eps: map[string]c41ep{"10.0.0.1": c41accept},
 			threads: [][]c41d{{dial("h")}, {dto("h", sec)}, {dds("h", sec)}}},
-		{name: "conc1/resolver-hangs", bound: b, conc: 1, hosts: map[string]c41host{"h": {ips: []string{"10.0.0.1"}, mode: c41resHang}, "g": {ips: []string{"10.0.1.1"}}}, eps: map[string]c41ep{"10.0.1.1": c41accept},
+		{name: "conc1/resolver-hangs", bound: B, conc: 1, hosts: map[string]c41host{"h": {ips: []string{"10.0.0.1"}, mode: c41resHang}, "g": {ips: []string{"10.0.1.1"}}}, eps: map[string]c41ep{"10.0.1.1": c41accept},
 			threads: [][]c41d{{dto("h", sec)}, {dto("g", sec)}, {dto("h", 2*sec)}}},
 		{name: "conc2/2addrs-hang-accept", bound: b, conc: 2, hosts: two, eps: map[string]c41ep{"10.0.0.1": c41hang, "10.0.0.2": c41accept},
 			threads: [][]c41d{{dto("h", sec)}, {dto("h", sec)}, {dto("h", 2*sec)}}},
@@ -523,7 +521,7 @@ func TestVerif_C41(t *testing.T) {
 		{name: "conc1/2addrs-refuse-slow", bound: b, conc: 1, hosts: two, eps: map[string]c41ep{"10.0.0.2": c41slow}, slowBy: sec,
 			threads: [][]c41d{{dto("h", 3*sec)}, {dto("h", 2*sec)}, {dto("h", 1500*time.Millisecond)}}},
 		{name: "conc1/sequential-rotation-3addrs", bound: B, conc: 1, hosts: map[string]c41host{"h": three["h"], "g": {ips: []string{"10.0.1.1"}}},
-			eps: map[string]c41ep{"10.0.0.1": c41accept, "10.0.0.2": c41accept, "10.0.0.3": c41accept, "10.0.1.1": c41accept},
+			eps:     map[string]c41ep{"10.0.0.1": c41accept, "10.0.0.2": c41accept, "10.0.0.3": c41accept, "10.0.1.1": c41accept},
 			threads: [][]c41d{{dial("h"), dial("h"), dial("h"), dial("h")}, {dto("g", sec)}}},
 		{name: "conc1/1addr-hang/timeouts-1s-2s-3s", bound: b, conc: 1, hosts: one, eps: map[string]c41ep{"10.0.0.1": c41hang},
 			threads: [][]c41d{{dto("h", sec)}, {dto("h", 2*sec)}, {dial("h")}}},
